@@ -633,3 +633,47 @@ for _p in ('C03', 'C08'):
 _castidx = _pair('c13', 'cast_index', (120, 300), 'int32 index data (all values) x 1..2 rows (thorough: 3) x cast to int8 / int16 / uint8 / uint16 (numpy astype: narrowing wraps)',
                  ['FrameItem._setup_frame_params_from_data'], replay=D + 'replay_cast_index', validate=D + 'replay_cast_index', shards=(8, 12))
 SPECS['C13']['obligations'] = SPECS['C13']['obligations'] + _castidx
+
+# ---------------------------------------------------------------------------------------------------------------
+# round 4 of seeded changes (vf/harness/r4.py, vf/replay/r4.py)
+R4 = R + 'r4:'
+_sulre = _pair('r4', 'sul_rerender', (400, 900), 'label rendered, any of sequence number (1..9999) / maximum record length (20..16384) / set identifier re-assigned, rendered again: equals a fresh label',
+               ['StorageUnitLabel.represent_as_bytes', 'StorageUnitLabel.__init__'], replay=R4 + 'replay_sul_rerender', validate=R4 + 'replay_sul_rerender')
+_fhlate = _pair('r4', 'fh_late', (200, 900), 'file header created with provisional sequence number / identifier, completed through its attributes, optionally after a first encoding; sequence numbers up to 99999 (thorough: 10**10-1)',
+                ['FileHeaderItem.__init__', 'FileHeaderItem._make_attrs_bytes'], replay=R4 + 'replay_fh_late', validate=R4 + 'replay_fh_late')
+_alias = _pair('r4', 'alias', (400, 1200), 'every multi-valued attribute signature (thorough: site): the list handed over is appended to / cleared / changed by the caller afterwards',
+               ['Attribute.value', 'Attribute.convert_value', 'EFLRAttribute._convert_value'], replay=R4 + 'replay_alias', shards=(8, 16))
+_longl = _pair('r4', 'long_list', (200, 400), 'AXIS coordinates: lists of 1..12 integers, one element (symbolic position) any integer: in range -> exact, out of the SLONG range -> refused',
+               ['Attribute._write_values', 'write_struct', 'Attribute.get_as_bytes'], replay=R4 + 'replay_long_list', validate=R4 + 'replay_long_list', shards=(12, 12))
+_looka = _pair('r4', 'lookalike', (120, 300), '26 strings that look numeric (nan, inf, 1e5, 5., .5, 1_0, blanks ...) through convert_maybe_numeric and AXIS coordinates (finite, exhaustive)',
+               ['convert_maybe_numeric', 'convert_numeric'], replay=R4 + 'replay_lookalike', validate=R4 + 'replay_lookalike')
+_shared = _pair('r4', 'shared_dataset', (400, 900), 'two channels of one frame on ONE data set: 8 source dtypes x (no cast + 8 casts)^2 x dict / structured source x 1..2 rows x chunk 1..2',
+                ['SourceDataWrapper.determine_dtypes', 'SourceDataWrapper.load_chunk', 'LogicalFile._make_multi_frame_data', 'ChannelItem.dataset_name'],
+                replay=R4 + 'replay_shared_dataset', validate=R4 + 'replay_shared_dataset', shards=(9, 9))
+_compl = _pair('r4', 'completeness', (120, 300), 'channel present or not x frame present or not x a rejected add_channel / add_frame call: check_objects refuses an incomplete logical file',
+               ['LogicalFile.check_objects', 'LogicalFile._check_completeness', 'LogicalFile.add_frame', 'LogicalFile.add_channel'])
+_foreign = _pair('r4', 'foreign_channel', (120, 300), 'two logical files (own set names): a frame of the second lists a channel object of the first, in place of / in addition to its own',
+                 ['LogicalFile._check_channels_assigned_to_frames', 'LogicalFile.check_objects'])
+_rejorig = _pair('r4', 'rejected_origin', (200, 400), 'first add_origin rejected (bad creation time; explicit reference < 2**30 or default), 0..2 objects, valid add_origin (explicit / default): all objects and the header carry the valid reference',
+                 ['LogicalFile.add_origin', 'LogicalFile.default_origin_reference'])
+_enumhist = _pair('r4', 'soft_enum_history', (120, 300), '4 soft enumerations: a non-member converted twice (same / second converter) in modes m1, m2: each call judged by the mode in force',
+                  ['ValidatorEnum.make_converter'])
+_chext = _pair('r4', 'channel_extremes', (200, 400), 'index channel declaring MINIMUM-VALUE / MAXIMUM-VALUE; 1..3 rows of values 0..60000: INDEX-MIN / INDEX-MAX are those of the rows',
+               ['FrameItem._setup_frame_params_from_data'])
+_npint = _pair('r4', 'window_npint', (120, 300), '5 source kinds x 4 rows x every window, from_idx / to_idx as int / np.int64 / int32 / intp / uint16 (concrete: a numpy scalar cannot be symbolic)',
+               ['SourceDataWrapper.__init__'], shards=(25, 25))
+_staint = _pair('r4', 'setup_taint', (200, 400), 'FrameItem.setup_from_data: 5 source kinds x 1..3 rows x index type or not x cast (none / float32 / same dtype) x data-dependent masks either way; spacing computation replaced by an opaque result (cut)',
+                ['FrameItem.setup_from_data', 'FrameItem._setup_frame_params_from_data', 'SourceDataWrapper.__getitem__'],
+                replay=R4 + 'replay_setup_taint', validate=R4 + 'replay_setup_taint')
+for _p, _o in (('C01', _sulre), ('C14', _sulre), ('C09', _fhlate), ('C14', _fhlate), ('C07', _alias), ('C05', _alias), ('C14', _alias),
+               ('C06', _longl), ('C12', _longl), ('C05', _looka), ('C03', _shared), ('C08', _shared), ('C11', _shared),
+               ('C12', _compl), ('C20', _compl), ('C18', _foreign), ('C12', _foreign), ('C20', _rejorig), ('C07', _rejorig),
+               ('C14', _enumhist), ('C17', _enumhist), ('C13', _chext), ('C11', _npint), ('C19', _staint)):
+    SPECS[_p]['obligations'] = SPECS[_p]['obligations'] + _o
+# cross-registrations: the writer loop and the buffer decide "any size is writable / survives" as much as the segmenter
+SPECS['C15']['obligations'] = SPECS['C15']['obligations'] + _find('C10', 'ob_glue') + _find('C10', 'reach_glue')
+SPECS['C16']['obligations'] = SPECS['C16']['obligations'] + _find('C10', 'ob_buffer_step') + _find('C10', 'reach_buffer_step') + _find('C10', 'wit_buffer_two_flushes')
+SPECS['C04']['obligations'] = SPECS['C04']['obligations'] + _find('C06', 'ob_text_codepoints') + _find('C06', 'reach_text_codepoints')
+for _p in ('C15', 'C16'):
+    SPECS[_p]['stubs'] = SPECS[_p]['stubs'] + ['RopeArray / MemWriter (buffer and file stand-ins)']
+SPECS['C19']['cuts'] = list(SPECS['C19']['cuts']) + ['ob_setup_taint: FrameItem._compute_spacing_and_direction replaced by an opaque result (its value-level behaviour is C13; whether it writes into its argument is not decided)']
